@@ -3,6 +3,7 @@ import itertools
 
 import numpy as np
 
+from . import _jobs
 from . import _rfa as R
 from .. import callform, gen
 from ..core import fp_watch
@@ -29,7 +30,7 @@ RULE = ("exhaustive: integer series x = sorted subsets of {0..7} (2..6 points qu
         " Round-5 classes: negative stop (Python slice semantics), pandas Series with absolute bounds."
         " Round-6 classes: a 'huge' kind (66 000..90 000 samples, all values different, bounds beyond sample 2**16, and - round 8 - a left bound strictly inside the gap in front of sample 2**16 / 2**15 / 50 000 / 60 000), abscissae in narrow signed integers spanning their type with ratio bounds."
         " Round-7 classes: truncation after resampling to the same number of points (same length and ends, other grid).")
-REQUIRED_MONITORS = ["c11:truncate", "c11:weaver_truncate", "c11:slice_by_value", "c11:slice_by_index",
+REQUIRED_MONITORS = ["threads:weaver_readers", "c11:truncate", "c11:weaver_truncate", "c11:slice_by_value", "c11:slice_by_index",
                      "c11:truncate_by_index"]
 ASSUMPTIONS = ["left < right; slicing values are samples of x; index bounds within 0..len (other inputs belong to C20)"]
 NSHARDS = 16
@@ -42,7 +43,7 @@ def plan(tier, seed):
     specs += [{"kind": "random", "start": p * (n // NSHARDS), "count": n // NSHARDS} for p in range(NSHARDS)]
     # a day of per-second samples: more than 2**16 points (function, Weaver, slicing and index modes in turn)
     specs += [{"kind": "huge", "start": 6 * p, "count": 6} for p in range(1 if tier == "quick" else 8)]
-    return specs
+    return specs + _jobs.plan(tier, shards=1)
 
 
 def exhaustive(tier, merged):
@@ -350,6 +351,8 @@ def run_random_case(ctx, kind_, idx):
 
 
 def run(ctx, spec):
+    if spec["kind"] in ("threads", "threads_cold"):      # one Weaver read by several threads at once
+        return _jobs.run(ctx, spec, ["weaver_readers", "domain"])
     if spec["kind"] == "exhaustive":
         run_exhaustive(ctx, spec)
     else:
@@ -358,6 +361,8 @@ def run(ctx, spec):
 
 
 def replay(ctx, case):
+    if case["kind"] in ("threads", "threads_cold"):
+        return _jobs.run_case(ctx, ["weaver_readers", "domain"], case["idx"], cold=case["kind"] == "threads_cold")
     if case["kind"] == "exhaustive":
         from traffic_weaver.process import truncate
         xs = case["x"]
